@@ -415,6 +415,11 @@ class Gen:
                 blocks.append(self.block(depth + 1, "item"))
                 self.feats.add("multi-block-item")
             items.append(blocks)
+        if nitems > 1 and not task and r.random() < 0.08:
+            # an item with no content at all (just its marker); never the first one (after a paragraph line a lone '-' would
+            # be a setext underline)
+            items[r.randint(1, nitems - 1)] = []
+            self.feats.add("empty-item")
         if self.hostile and r.random() < 0.1:
             self.feats.add("list-first-child-list")
             items[0] = [self.list_(depth + 1, "item")] if depth < 2 else items[0]
@@ -477,7 +482,7 @@ class Gen:
                     inner["segs"][0] = ["Word"]
         elif inner_kind == "list":
             inner = self.list_(2, "top")
-            inner["items"] = [[b[0]] for b in inner["items"]]
+            inner["items"] = [[b[0]] for b in inner["items"] if b]  # no empty items next to a tag line
             for it in inner["items"]:
                 # single physical line per item: flowmark's blank-line rule looks at the line next to the tag
                 it[0]["segs"] = [[w for seg in it[0]["segs"] for w in seg]]
@@ -623,6 +628,9 @@ class Ser:
                 marker = (f"{b['start'] + k}{b['delim']}" if b["ordered"] else b["bullet"]) + " "
                 if k and not b["tight"]:
                     lines.append(("", "x"))
+                if not item:
+                    lines.append((marker.rstrip(), "x"))
+                    continue
                 self.cdepth += 1
                 inner = self.blocks(item, tight=b["tight"])
                 self.cdepth -= 1
